@@ -81,3 +81,15 @@ def heap_configs(tier, seed=1):
                     k = _knob('%s/%s/%s/%d' % (cxx, std, ms, seed), 4)
                     out.append(mk(cxx, std, ms, opt=('-O0' if k == 0 else '-O1') if san else ('-O0' if k == 0 else '-O2'), san=san))
     return out
+
+
+def prefetch_configs(tier, seed=1):
+    """C20: builds with and without AVEL_SSE (the only macro Cache.hpp looks at besides the compiler), GCC and Clang,
+    -O0/-O2, and cache-line-size macro variants (they change the loop stride)."""
+    L = ('AVEL_L1_CACHE_LINE_SIZE=32', 'AVEL_L2_CACHE_LINE_SIZE=128', 'AVEL_L3_CACHE_LINE_SIZE=256')
+    if tier == 'quick':
+        return [mk('g++', 'c++11', 'none'), mk('g++', 'c++11', 'SSE2'), mk('g++', 'c++17', 'AVX2'), mk('g++', 'c++20', 'full'),
+                mk('clang++', 'c++14', 'none', opt='-O0'), mk('clang++', 'c++11', 'SSE4_2', extra_defs=L), mk('g++', 'c++14', 'none', extra_defs=L, finl=True)]
+    out = vector_configs(tier, seed)
+    out += [mk(cxx, 'c++11', ms, opt=o, extra_defs=L) for cxx in ('g++', 'clang++') for ms in ('none', 'SSE2', 'AVX2', 'full') for o in ('-O0', '-O2')]
+    return out
